@@ -211,7 +211,7 @@ func c12Server(c *ev.Ctx) {
 	for i := 0; i < c.Sz(3, 40); i++ {
 		msizes = append(msizes, uint32(r.U64()>>uint(r.Intn(32)+32)))
 	}
-	strs := c12Strings(r, c.Sz(60, 60000))
+	strs := c12Strings(r, c.Sz(600, 60000))
 	srv := p9.NewServer(noAttach{})
 	idx := 0
 	for _, s := range strs {
@@ -234,7 +234,7 @@ func c12Server(c *ev.Ctx) {
 		}
 	}
 	// Mid-session and repeated Tversion on one connection.
-	seqs := c.Sz(400, 20000)
+	seqs := c.Sz(2000, 20000)
 	for k := 0; k < seqs; k++ {
 		idx++
 		if !c.Mine(idx) {
@@ -322,7 +322,7 @@ func c12Client(c *ev.Ctx) {
 	}
 	offers = append(offers, offer{ver: "9P2000.L", msize: 4096, req: 4096, eagain: 8}, offer{ver: "9P2000.L", msize: 4096, req: 4096, eagain: 9},
 		offer{ver: "9P2000.L", msize: 4096, req: 4096, errno: 22}, offer{ver: "9P2000.L", msize: 4096, req: 4096, errno: 5})
-	for i := 0; i < c.Sz(20, 3000); i++ {
+	for i := 0; i < c.Sz(100, 3000); i++ {
 		offers = append(offers, offer{ver: ev.Pick(r, vers), msize: uint32(r.Intn(70000)), req: ev.Pick(r, reqs), eagain: r.Intn(3) * r.Intn(2)})
 	}
 	for i, o := range offers {
